@@ -31,9 +31,18 @@ func (verifC17Log) Log(logger.Level, string, ...any) {}
 type verifC17Entry struct {
 	r, f    int
 	payload string
+	u       *unit.Unit
+}
+
+// a delivered unit, retained WITHOUT copying: `seen` is the payload as formatted when the callback was
+// entered; at the end of the history the same unit is formatted again
+type verifC17Kept struct {
+	u    *unit.Unit
+	seen string
 }
 
 type verifC17Reader struct {
+	kept     []verifC17Kept
 	id       int
 	subs     []int
 	rd       *Reader
@@ -46,6 +55,7 @@ type verifC17Reader struct {
 }
 
 type verifC17State struct {
+	share   bool
 	cap, nf int
 	strm    *Stream
 	sub     *SubStream
@@ -63,27 +73,57 @@ var verifC17 *verifC17State
 // waits are cut short so that the run still ends
 var verifC17Timeout = 3 * time.Second
 
-func verifC17Format(f int) format.Format {
+func verifC17Format(f int, share bool) format.Format {
 	switch f {
 	case 0:
 		return &format.H264{PayloadTyp: 96, PacketizationMode: 1}
 	case 1:
 		return &format.VP8{PayloadTyp: 97}
-	default:
+	case 2:
+		if share {
+			return &format.VP8{PayloadTyp: 97} // replaced by format 1's instance in reset
+		}
 		return &format.VP9{PayloadTyp: 98}
+	default:
+		return &format.MPEG4Video{PayloadTyp: 99}
 	}
+}
+
+// the MPEG-4 Video frame written for a tag (same function as writtenM4V in Model/C17.lean); always a fresh
+// buffer with cap == len, as a demuxer would hand it over
+func verifC17M4V(tag int) []byte {
+	t := verifC17TagBytes(3, tag)
+	var b []byte
+	switch tag % 4 {
+	case 0:
+		b = append([]byte{0, 0, 1, 0xB0, byte((tag/4)%3 + 1), 0, 0, 1, 0xB3}, t...)
+		b = append(b, 0, 0, 1, 0xB6, 7)
+	case 3:
+		b = append([]byte{0, 0, 1, 0xB6}, t...)
+	default:
+		b = append([]byte{0, 0, 1, 0xB3}, t...)
+		b = append(b, 0, 0, 1, 0xB6, 7)
+	}
+	out := make([]byte, len(b))
+	copy(out, b)
+	return out
 }
 
 func verifC17TagBytes(f, tag int) []byte { return []byte{byte(f), byte(tag / 256), byte(tag % 256)} }
 
-func verifC17Payload(f, tag int) unit.Payload {
+func verifC17Payload(f, tag int, share bool) unit.Payload {
 	switch f {
 	case 0:
 		return unit.PayloadH264{{0x09, 0xF0}, append([]byte{0x41}, verifC17TagBytes(f, tag)...)}
 	case 1:
 		return unit.PayloadVP8(verifC17TagBytes(f, tag))
-	default:
+	case 2:
+		if share {
+			return unit.PayloadVP8(verifC17TagBytes(f, tag))
+		}
 		return unit.PayloadVP9(verifC17TagBytes(f, tag))
+	default:
+		return unit.PayloadMPEG4Video(verifC17M4V(tag))
 	}
 }
 
@@ -102,6 +142,8 @@ func verifC17FmtPayload(p unit.Payload) string {
 		return verifutil.Hex(p)
 	case unit.PayloadVP9:
 		return verifutil.Hex(p)
+	case unit.PayloadMPEG4Video:
+		return verifutil.Hex(p)
 	}
 	return "other"
 }
@@ -118,6 +160,7 @@ func (st *verifC17State) find(id int) *verifC17Reader {
 func (st *verifC17State) record(e verifC17Entry) {
 	st.newDlv = append(st.newDlv, e)
 	if r := st.find(e.r); r != nil {
+		r.kept = append(r.kept, verifC17Kept{u: e.u, seen: e.payload})
 		r.inflight = true
 		if r.pend > 0 {
 			r.pend--
@@ -251,9 +294,15 @@ func verifC17Exec(op string) string {
 	if f[0] == "reset" {
 		verifC17Close()
 		st := &verifC17State{cap: verifutil.Atoi(f[1]), nf: verifutil.Atoi(f[2]), events: make(chan verifC17Entry, 1024)}
+		st.share = len(f) > 3 && f[3] == "1" && st.nf >= 3
 		desc := &description.Session{}
 		for i := 0; i < st.nf; i++ {
-			m := &description.Media{Type: description.MediaTypeVideo, Formats: []format.Format{verifC17Format(i)}}
+			forma := verifC17Format(i, st.share)
+			if st.share && i == 2 {
+				// two medias built from ONE format instance (e.g. two tracks created from the same pointer)
+				forma = st.medias[1].Formats[0]
+			}
+			m := &description.Media{Type: description.MediaTypeVideo, Formats: []format.Format{forma}}
 			st.medias = append(st.medias, m)
 			desc.Medias = append(desc.Medias, m)
 		}
@@ -285,7 +334,7 @@ func verifC17Exec(op string) string {
 				fi := i
 				r.subs = append(r.subs, fi)
 				r.rd.OnData(st.medias[fi], st.medias[fi].Formats[0], func(u *unit.Unit) error {
-					st.events <- verifC17Entry{r: id, f: fi, payload: verifC17FmtPayload(u.Payload)}
+					st.events <- verifC17Entry{r: id, f: fi, payload: verifC17FmtPayload(u.Payload), u: u}
 					return <-r.gate
 				})
 			}
@@ -302,7 +351,7 @@ func verifC17Exec(op string) string {
 		if fi >= st.nf {
 			return "bad-op"
 		}
-		st.sub.WriteUnit(st.medias[fi], st.medias[fi].Formats[0], &unit.Unit{PTS: int64(tag) * 3000, Payload: verifC17Payload(fi, tag)})
+		st.sub.WriteUnit(st.medias[fi], st.medias[fi].Formats[0], &unit.Unit{PTS: int64(tag) * 3000, Payload: verifC17Payload(fi, tag, st.share)})
 		for _, r := range st.readers {
 			if !r.attached {
 				continue
@@ -350,6 +399,25 @@ func verifC17Exec(op string) string {
 			st.remove(r)
 		}
 
+	case "final":
+		// re-read every unit ever handed to a reader: it must still be what the callback saw
+		var parts []string
+		for _, r := range st.readers {
+			var ps []string
+			for _, k := range r.kept {
+				ps = append(ps, verifC17FmtPayload(k.u.Payload))
+			}
+			p := "-"
+			if len(ps) != 0 {
+				p = strings.Join(ps, "/")
+			}
+			parts = append(parts, fmt.Sprintf("%d:%s", r.id, p))
+		}
+		if len(parts) == 0 {
+			return "k=-"
+		}
+		return "k=" + strings.Join(parts, ";")
+
 	default:
 		return "bad-op"
 	}
@@ -360,8 +428,19 @@ func verifC17Exec(op string) string {
 
 func verifC17Gen(r *verifutil.Rand, i int, thorough bool) []string {
 	cap := []int{1, 1, 2, 2, 4, 8}[r.Intn(6)]
-	nf := 1 + r.Intn(3)
-	ops := []string{fmt.Sprintf("reset %d %d", cap, nf)}
+	nf := 1 + r.Intn(4)
+	share := 0
+	if nf >= 3 && r.Chance(1, 2) {
+		share = 1 // formats 1 and 2 are two medias holding the same format instance
+	}
+	ops := []string{fmt.Sprintf("reset %d %d %d", cap, nf, share)}
+	// weight writes towards MPEG-4 Video when present (in-band config updates, several GOV key frames)
+	pickFmt := func() int {
+		if nf == 4 && r.Chance(1, 2) {
+			return 3
+		}
+		return r.Intn(nf)
+	}
 	n := 10 + r.Intn(40)
 	if thorough {
 		n = 10 + r.Intn(150)
@@ -419,7 +498,7 @@ func verifC17Gen(r *verifutil.Rand, i int, thorough bool) []string {
 		}
 		switch {
 		case x < wW:
-			ops = append(ops, fmt.Sprintf("write %d %d", r.Intn(nf), tag))
+			ops = append(ops, fmt.Sprintf("write %d %d", pickFmt(), tag))
 			tag++
 		case x < wW+wD:
 			ops = append(ops, fmt.Sprintf("done %d", pickReader()))
@@ -444,6 +523,7 @@ func verifC17Gen(r *verifutil.Rand, i int, thorough bool) []string {
 		}
 		ops = append(ops, fmt.Sprintf("write %d %d", r.Intn(nf), tag))
 	}
+	ops = append(ops, "final")
 	return ops
 }
 
@@ -453,7 +533,16 @@ func verifC17Class(op, impl string) string {
 	w := strings.Fields(op)[0]
 	if w == "reset" {
 		verifC17LastX = ""
+		if strings.HasSuffix(op, " 1") {
+			return "reset/shared-format"
+		}
 		return "reset"
+	}
+	if w == "final" {
+		return "final"
+	}
+	if w == "write" && strings.HasPrefix(op, "write 3 ") {
+		w = "write-m4v"
 	}
 	c := w
 	if strings.Contains(impl, "stuck") {
@@ -466,7 +555,7 @@ func verifC17Class(op, impl string) string {
 	if i := strings.Index(impl, " x="); i >= 0 {
 		x = impl[i:]
 	}
-	if w == "write" && verifC17LastX != "" && x != verifC17LastX {
+	if strings.HasPrefix(w, "write") && verifC17LastX != "" && x != verifC17LastX {
 		c += "/discard"
 	}
 	verifC17LastX = x
